@@ -23,6 +23,8 @@ type harnessCtx struct {
 	target   *ssa.Function
 	modifies []modClause
 	holeDone bool
+	pats     []string
+	strict   bool
 	name     string
 }
 
@@ -35,6 +37,7 @@ type modClause struct {
 	ref    *Term
 	path   string
 	mem    string
+	pats   []string
 }
 
 func harnessSuffix(fn *ssa.Function) string {
@@ -148,7 +151,7 @@ var intrinsicNames = map[string]bool{
 	"vRequires": true, "vEnsures": true, "vAssert": true, "vAssume": true, "vForall": true, "vExists": true,
 	"vSameRegion": true, "vOffset": true, "vModifiesBytes": true, "vModifiesAll": true, "vFresh": true,
 	"vCanary": true, "vAllocs": true, "vUnreachable": true, "vModifiesObj": true, "vNoAlias": true, "vOpaque": true,
-	"vModifiesNothing": true, "vBorrowed": true, "vIsFreshRegion": true,
+	"vModifiesNothing": true, "vBorrowed": true, "vIsFreshRegion": true, "vModifiesHeap": true, "vStrictLen": true, "vModifiesMems": true,
 }
 
 func (e *Engine) callStatic(fr *Frame, st *State, callee *ssa.Function, args []Value, site ssa.Instruction) []Value {
@@ -169,7 +172,11 @@ func (e *Engine) callStatic(fr *Frame, st *State, callee *ssa.Function, args []V
 			nf.quiet = false
 			nf.prefix = ""
 			nf.hctx = nil
-			return e.finishCall(fr, st, nf, args, site)
+			saved := e.strict
+			e.strict = h.strict
+			r := e.finishCall(fr, st, nf, args, site)
+			e.strict = saved
+			return r
 		case modeApply:
 			e.applyModifies(st, h)
 			return e.havocResults(st, callee.Signature, "ret."+harnessSuffix(callee))
@@ -266,6 +273,51 @@ func (e *Engine) applyModifies(st *State, h *harnessCtx) {
 				v := FreshVar("hv."+name, l.sort)
 				st.mems[name] = e.mem(st, name, objKS, l.sort).Write([]*Term{m.ref}, v)
 			}
+		case "mems":
+			for name, mm := range st.mems {
+				match := false
+				for _, p := range m.pats {
+					if strings.Contains(name, p) {
+						match = true
+					}
+				}
+				if !match {
+					continue
+				}
+				if writeLog != nil {
+					writeLog(name, nil)
+				}
+				st.mems[name] = NewBaseMem(name, mm.ksort, mm.sort, FreshName("M."+name))
+			}
+			// memories not touched yet are bases already: reading them later yields M0, which is
+			// only sound if they are given a fresh base too
+			for name := range memShapes {
+				if _, ok := st.mems[name]; ok {
+					continue
+				}
+				for _, p := range m.pats {
+					if strings.Contains(name, p) {
+						ks, so := e.memShape(name)
+						st.mems[name] = NewBaseMem(name, ks, so, FreshName("M."+name))
+					}
+				}
+			}
+			h.pats = append(h.pats, m.pats...)
+		case "heap":
+			if writeLog != nil {
+				writeLog("*heap", nil)
+			}
+			for name, mm := range st.mems {
+				if strings.HasPrefix(name, "global:") && !strings.Contains(name, "packet.icmpTable") {
+					continue
+				}
+				if len(mm.ksort) == 2 && strings.HasPrefix(name, "elem:uint8/") {
+					st.mems[name] = mm.HavocFresh(e.allocSeq)
+					continue
+				}
+				st.mems[name] = NewBaseMem(name, mm.ksort, mm.sort, FreshName("M."+name))
+			}
+			e.heapHavocs++
 		case "all":
 			if writeLog != nil {
 				writeLog("*", nil)
@@ -361,6 +413,25 @@ func (e *Engine) intrinsic(fr *Frame, st *State, callee *ssa.Function, args []Va
 		h.modifies = append(h.modifies, modClause{kind: "all"})
 		return nil
 	case "vModifiesNothing":
+		return nil
+	case "vModifiesHeap":
+		if h == nil {
+			unsup("vModifiesHeap outside a harness")
+		}
+		h.modifies = append(h.modifies, modClause{kind: "heap"})
+		return nil
+	case "vModifiesMems":
+		if h == nil {
+			unsup("vModifiesMems outside a harness")
+		}
+		// variadic string constants: the argument is a slice of string literals
+		pats := e.stringSliceConsts(st, args[0])
+		h.modifies = append(h.modifies, modClause{kind: "mems", pats: pats})
+		return nil
+	case "vStrictLen":
+		if h != nil {
+			h.strict = true
+		}
 		return nil
 	case "vAllocs":
 		g, ok := st.ghost["allocs"]
@@ -659,4 +730,31 @@ func siteOrdinal(fn *ssa.Function, site ssa.Instruction, name string) int {
 		}
 	}
 	return n
+}
+
+// stringSliceConsts decodes a []string whose elements are string literals.
+func (e *Engine) stringSliceConsts(st *State, v Value) []string {
+	s := v.T
+	if !s[2].IsConst() {
+		unsup("vModifiesMems needs literal arguments")
+	}
+	n := int(s[2].val.Int64())
+	var out []string
+	ls := leavesOf(types.Typ[types.String])
+	for i := 0; i < n; i++ {
+		var ts []*Term
+		for _, l := range ls {
+			name := elemMemName(types.Typ[types.String], l)
+			ts = append(ts, e.mem(st, name, elemKS, l.sort).Read([]*Term{s[0], BVAdd(s[1], BVConst(int64(i), IntSort))}))
+		}
+		if !ts[0].IsConst() {
+			unsup("vModifiesMems needs literal arguments")
+		}
+		lit, ok := e.litByID[ts[0].val.Uint64()]
+		if !ok {
+			unsup("vModifiesMems needs literal arguments")
+		}
+		out = append(out, lit)
+	}
+	return out
 }
